@@ -15,10 +15,11 @@
   * `solvers_agree_partial` the weaker form with uniqueness as a hypothesis (kept because it is
                             the statement that was asked for; implied by `solvers_agree`)
 
-  Note on the pivot search of `solve_basic`: `max_abs_in_column` starts from `max_index = 0`,
-  so on an all-zero pivot column it returns row 0 and `partial_pivot` exchanges row `k` with
-  row 0.  Soundness survives (entry (0,0) is then zero for good and the last division of
-  `backsolve` fails); see `Ohsl.Mat.gauss_spec`.
+  Note on the pivot search of `solve_basic`: since fix 337d180 `max_abs_in_column` starts from
+  `max_index = start_row`, so on an all-zero pivot sub-column it returns the current row and no
+  exchange takes place (before the fix it returned row 0 and an already eliminated row was
+  exchanged back in: defect D11); the zero pivot then makes a division of `backsolve` fail; see
+  `Ohsl.Mat.gauss_spec`.
 -/
 import Ohsl.Props.C01
 import Ohsl.Lemmas.SolveSound
@@ -152,7 +153,7 @@ example : ∃ (A : Mat ℚ) (b x : Array ℚ), Mat.Is A 3 3 (Mat.ent A) ∧ b.si
     Mat.WFn.is ⟨rfl, rfl, rfl⟩, rfl, by decide +kernel, by decide +kernel⟩
 
 /-- and both solvers do refuse a singular system whose second pivot column vanishes (the pivot
-    search falls back to row 0 there): no value is returned -/
+    search finds no non-zero candidate there): no value is returned -/
 example : Mat.solveBasic (K := ℚ) ⟨#[1, 1, 0, 0, 0, 1, 0, 0, 1], 3, 3⟩ #[1, 2, 3] = .error .arith ∧
     Mat.solveLU (K := ℚ) ⟨#[1, 1, 0, 0, 0, 1, 0, 0, 1], 3, 3⟩ #[1, 2, 3] = .error .arith :=
   ⟨by decide +kernel, by decide +kernel⟩
